@@ -1,0 +1,62 @@
+//go:build verif
+
+package internal
+
+// Hook point identifiers used by the verif build (see verifhook_on.go).
+const (
+	VpGetMap       = iota + 1 // getFromShard, under the shard read lock, before return
+	VpSetMapClosed            // setShardWithoutLock: shard closed
+	VpSetMapUpdate            // setShardWithoutLock: in-place update
+	VpSetMapReject            // setShardWithoutLock: doorkeeper rejected
+	VpSetMapNew               // setShardWithoutLock: new entry stored
+	VpDelMap                  // Delete/DeleteWithSecondary under the shard lock
+	VpPreSend                 // before a blocking send on the write queue
+	VpPostSend                // after the send returned
+	VpMaintTop                // maintenance loop, before select
+	VpMaintPreLock            // batch collected, before policyMu.Lock
+	VpMaintLocked             // batch about to be drained, policyMu held
+	VpMaintUnlock             // batch drained, before policyMu.Unlock
+	VpMaintExit               // maintenance loop returns
+	VpTickPreLock             // ticker fired, before policyMu.Lock
+	VpTickLocked              // ticker holds policyMu, clock refreshed
+	VpTickDone                // wheel advanced, before policyMu.Unlock
+	VpTickExit                // ticker goroutine returns
+	VpSinkIn                  // sinkWrite entry
+	VpSinkOut                 // sinkWrite exit (deferred)
+	VpRemoveIn                // removeEntry entry
+	VpRecheck                 // removeEntry, just before the deadline re-check
+	VpRecheckAbort            // removeEntry, re-check found the entry alive
+	VpMapRemoved              // removeEntry, after the map removal (result in n[1])
+	VpRemovedArm              // removeEntry, REMOVED arm
+	VpHandoff                 // removeEntry, entry handed to the secondary queue
+	VpAccess                  // drainRead, one read event delivered to the policy
+	VpAccessSkip              // drainRead, one read event skipped
+	VpPreWake                 // drainWrite, before the wake-up of a waiter
+	VpPostWake                // drainWrite, after the wake-up
+	VpWaitMid                 // Wait, marker sent, before the receive
+	VpCloseShard              // Close, one shard closed (under its lock)
+	VpCloseCancel             // Close, after cancel (policyMu held)
+	VpSecTake                 // processSecondary, item taken from the queue
+	VpSecCheck                // processSecondary, existence check done (read lock held)
+	VpSecSet                  // processSecondary, secondary Set returned
+	VpSecDel                  // processSecondary, map removal done
+	VpSecDone                 // processSecondary, item finished
+	VpSecExit                 // processSecondary returns
+	VpBufLoadHead             // Buffer.Add before head.Load
+	VpBufLoadTail             // Buffer.Add before tail.Load
+	VpBufFull                 // Buffer.Add found the ring full
+	VpBufCasTail              // Buffer.Add before tail CAS
+	VpBufPublish              // Buffer.Add before slot publish
+	VpBufCasToken             // Buffer.Add before token CAS
+	VpBufDrainSlot            // Buffer.Add before draining one slot
+	VpBufStoreHead            // Buffer.Add before head.Store
+	VpBufRet                  // Buffer.Add returns (n[0]=1 when a batch is returned)
+	VpBufFree                 // Buffer.Free before the token is handed back
+	VpSfLock                  // Group.Do before g.mu.Lock
+	VpSfJoined                // Group.Do follower registered, before wg.Wait
+	VpSfWoken                 // Group.Do follower after wg.Wait
+	VpSfLeader                // Group.Do leader registered, g.mu released
+	VpSfFinish                // doCall deferred section, before g.mu.Lock
+	VpSfFinished              // doCall deferred section, wg released, entry removed (g.mu held)
+	VpSfPut                   // call record about to go back to the pool
+)
